@@ -212,3 +212,51 @@ def lex_keys(fn):
             raise ValueError("unrecognised if shape: %s" % render(kids(s)[0], False))
         raise ValueError("unrecognised statement %s" % s["k"])
     raise ValueError("comparator falls off its end")
+
+
+# ---- C++17 evaluation order -------------------------------------------------------------------------
+def sequenced_before(fn, a, b):
+    """True / False / None (unsequenced or unknown): is the evaluation of node a sequenced before that of node b (C++17 rules)?
+    Statement order inside a compound statement; init before use in a declaration statement; for `x = y` and compound assignments
+    (built-in and overloaded, operator notation) the right operand before the left; for `,` `&&` `||` `?:` `<<` `>>` `[]` left before right;
+    arguments before the call itself; the arguments of one call among themselves: unsequenced."""
+    if a is b:
+        return None
+    pa = [a] + list(fn.ancestors(a))
+    pb = [b] + list(fn.ancestors(b))
+    ida = {n["i"] for n in pa}
+    if b["i"] in ida:
+        return True            # a is inside b: operands are evaluated before the operation b itself
+    if a["i"] in {n["i"] for n in pb}:
+        return False
+    lca = next((n for n in pb if n["i"] in ida), None)
+    if lca is None:
+        return None
+    ca = pa[[n["i"] for n in pa].index(lca["i"]) - 1]
+    cb = pb[[n["i"] for n in pb].index(lca["i"]) - 1]
+    ks = kids(lca)
+    ia = next(i for i, x in enumerate(ks) if x["i"] == ca["i"])
+    ib = next(i for i, x in enumerate(ks) if x["i"] == cb["i"])
+    k = lca["k"]
+    if k in ("CompoundStmt", "DeclStmt", "IfStmt", "ForStmt", "WhileStmt", "CXXForRangeStmt", "SwitchStmt"):
+        return ia < ib
+    op = lca.get("op", "")
+    assign = op in ("=", "+=", "-=", "*=", "/=", "%=", "<<=", ">>=", "&=", "|=", "^=")
+    if k in ("BinaryOperator", "CompoundAssignOperator"):
+        if assign:
+            return ia > ib       # right operand first
+        if op in (",", "&&", "||", "<<", ">>"):
+            return ia < ib
+        return None
+    if k == "CXXOperatorCallExpr":
+        # kids: [callee, lhs, rhs...]
+        if ia == 0 or ib == 0:
+            return None
+        if assign:
+            return ia > ib
+        if op in (",", "&&", "||", "<<", ">>", "[]"):
+            return ia < ib
+        return None
+    if k == "ConditionalOperator":
+        return True if ia == 0 else (False if ib == 0 else None)
+    return None
